@@ -10,11 +10,15 @@ const RATIOS: &[f32] = &[750.0, 10.0, 1.0, 0.5, 0.00001, 1000000.0];
 const CONTEXTS: &[(&str, &str)] = &[("a{width:", "}"), ("a{width:calc(1px + ", ")}"), ("@media (min-width:", "){a{}}"), ("a{--x:", "}"), ("a{margin:0 ", "}"), (":host{top:", "}"),
     ("@page{margin:", "}"), ("@page :first{margin:0 ", "}"), ("@font-face{width:", "}"), ("@keyframes k{from{width:", "}}"), ("@page{@top-left{width:", "}}"), ("@starting-style{a{width:", "}}"), ("@layer l{a{width:", "}}"), ("a{width:var(--x,", ")}"),
     // group rules nested in a style rule, with declarations written directly in them
-    ("a{@media (min-width:1px){width:", "}}"), ("a{@supports (x:y){margin:0 ", ";}}"), ("a{color:red;@container (min-width:1px){top:", "}}"), ("a{@layer l{width:", "}}")];
-const BOUND: &str = "15 rpx values x 6 ratios x 18 contexts (declaration, calc, media query, custom property, second value, :host, @page, @font-face, @keyframes, margin box, @starting-style, @layer, var() fallback, declarations inside @media / @supports / @container / @layer nested in a style rule); 44 other numeric spellings (signed zeros, explicit plus, integers, decimals, exponents, percentages, dimensions incl. An+B and look-alike units) x 11 contexts, re-tokenised: kind, unit, explicit sign, integer-ness and value kept; the JS binding constructor agrees with from_css for 10 ratios x 4 values x 3 option sets";
+    ("a{@media (min-width:1px){width:", "}}"), ("a{@supports (x:y){margin:0 ", ";}}"), ("a{color:red;@container (min-width:1px){top:", "}}"), ("a{@layer l{width:", "}}"),
+    // conditions of an @import that is rewritten under an import sign
+    ("@import './a' supports(width: ", ");"), ("@import url(b.wxss) layer(x) supports(margin-left: calc(100% - ", ")) (min-width: 10px);"), ("@import 'c' (min-width: ", ");")];
+const BOUND: &str = "15 rpx values x 6 ratios x 21 contexts (declaration, calc, media query, custom property, second value, :host, @page, @font-face, @keyframes, margin box, @starting-style, @layer, var() fallback, declarations inside @media / @supports / @container / @layer nested in a style rule, supports() / media conditions of an @import rewritten under an import sign); 44 other numeric spellings (signed zeros, explicit plus, integers, decimals, exponents, percentages, dimensions incl. An+B and look-alike units) x 11 contexts, re-tokenised: kind, unit, explicit sign, integer-ness and value kept; the JS binding constructor agrees with from_css for 10 ratios x 4 values x 3 option sets";
 
 fn transform(css: &str, ratio: f32) -> String {
-    let t = StyleSheetTransformer::from_css("p.wxss", css, StyleSheetOptions { rpx_ratio: ratio, ..Default::default() });
+    // sheets that start with an @import are transformed under an import sign (the rewrite of the import's conditions)
+    let sign = if css.starts_with("@import") { Some("S".to_string()) } else { None };
+    let t = StyleSheetTransformer::from_css("p.wxss", css, StyleSheetOptions { rpx_ratio: ratio, import_sign: sign, ..Default::default() });
     let mut s = String::new();
     t.output().write_str(&mut s).unwrap();
     s
